@@ -350,6 +350,21 @@ func c06Proxy(r *vlib.Run, ds []c06Doc) {
 			if g, w := canonHist(qpr.Histogram), canonRefHist(refdb.Histogram(docs, pq.Ref, 0, vfrac.MaxMID, 2)); g != w {
 				r.Violation(fmt.Sprintf("proxy-hist docs=%v q=%s", ds, pq.Text), c, fmt.Sprintf("got [%s] want [%s]", g, w))
 			}
+			// the older spelling of a count aggregation names the group-by field as `field`: same request, same answer
+			if s.Func == "count" && s.Field == "" && s.GroupBy != "" {
+				r.Add("evaluations", 1)
+				sr2 := *sr
+				sr2.AggQ = []search.AggQuery{{Field: s.GroupBy, Func: c06Funcs[s.Func], Interval: seq.MID(s.Interval)}}
+				qpr2, _, _, err := cl.ing.Search(context.Background(), &sr2, querytracer.New(false, "verif"))
+				if err != nil {
+					r.Violation(fmt.Sprintf("proxy-agg-error (count by `field`) docs=%v spec=%s", ds, vlib.JSON(s)), c, err.Error())
+					continue
+				}
+				res2 := qpr2.Aggregate([]seq.AggregateArgs{{Func: c06Funcs[s.Func], SkipWithoutTimestamp: s.Interval > 0}})
+				if got := canonRealAgg(res2[0]); got != want {
+					r.Violation(fmt.Sprintf("proxy-agg (count by `field`) docs=%v q=%s spec=%s", ds, pq.Text, vlib.JSON(s)), c, fmt.Sprintf("got  %s\nwant %s", got, want))
+				}
+			}
 		}
 	}
 	r.Add("proxy_corpora", 1)
